@@ -446,4 +446,15 @@ example : ((Chan.run demo).1.map (fun o => (o.res, o.t0, o.t1, o.reads.map fun r
        (.unit, 18, 20, [(some 9, 18, 20), (some 7, 20, 20)]),
        (.err .hang, 20, 26, [(none, 20, 26), (none, 26, 26)])]) = true := by decide
 
+/-- why the Spec (and the guard `q` of `Timed`) exempts slow sending: two one-byte pieces with a
+    5-tick sleep after each make a `send(timeout=3)` raise its `TimeoutError` at tick 10 -/
+def slowDemo : Case :=
+  { chunk := 4, slice := 2, script := [⟨0, [120, 121]⟩], accept := [],
+    ops := [.setSlow (some 5) 1, .send [120, 121] true (some 3) false] }
+
+example : ChanCase.WfCase slowDemo := ⟨by decide, by decide, by decide, by decide⟩
+
+example : ((Chan.run slowDemo).1.map (fun o => (o.res, o.t0, o.t1)) == [(.unit, 0, 0), (.err .timeout, 0, 10)]) = true := by
+  decide
+
 end C06
